@@ -379,6 +379,19 @@ def expand_dims(a, axis):
     return SymArray(_np.expand_dims(a.vals, axis), a.dtype)
 
 
+def sliding_window_view(x, window_shape, axis=None, *, subok=False, writeable=False):
+    if isinstance(x, SymArray):
+        return SymArray(_np.lib.stride_tricks.sliding_window_view(x.vals, int(window_shape) if not isinstance(window_shape, tuple) else window_shape, axis=axis), x.dtype)
+    fx = _foreign((x,), {})
+    if fx is not None:
+        return fx.__array_function__(sliding_window_view, (type(fx),), (x, window_shape), dict(subok=subok) if subok else {})
+    return _np.lib.stride_tricks.sliding_window_view(x, window_shape, axis=axis, subok=subok, writeable=writeable)
+
+
+symnp.sliding_window_view = sliding_window_view
+_StrideTricks.sliding_window_view = staticmethod(sliding_window_view)
+
+
 @sym_or_real("copy")
 def copy(a, **k):
     return a.copy()
